@@ -110,6 +110,18 @@ func replay(in, out string) {
 			if st != nil {
 				t.Emit(ObsEv(c, st, "k", c.Keys, nil))
 			}
+		case "index":
+			keys := toStrings(e["keys"])
+			offs := []int64{}
+			for _, v := range e["offs"].([]interface{}) {
+				b := []byte(fromInts(toIntSlice(v)))
+				var o uint64
+				for i := 7; i >= 0; i-- {
+					o = o<<8 | uint64(b[i])
+				}
+				offs = append(offs, int64(o))
+			}
+			t.Emit(indexEv(keys, offs, e["mode"].(string), int(e["block"].(float64)), toStrings(e["qs"])))
 		case "mcheck":
 			if st != nil {
 				t.Emit(McheckEv(c, st))
